@@ -108,6 +108,10 @@ func verifPubSetup(cfg verifPubCfg) *verifPubWorld {
 	// one more session per user
 	for i, u := range fx.uids {
 		s := verifNewSession("sid-u"+string(rune('0'+i)), u, auth.LevelAuth, 16)
+		if cfg.kind == verifKindP2P && i == 1 && verifNondetBool("attachedViaRoot") {
+			// a root session attached on behalf of the user: the session's own user is not the recipient
+			s = verifNewSession("sid-u"+string(rune('0'+i)), verifRootUid, auth.LevelRoot, 16)
+		}
 		att := verifNondetBool("attached")
 		pud := t.perUser[u]
 		if pud.deleted {
